@@ -237,11 +237,44 @@ impl<U> NumDecompressor<U> where U: UnsignedLike {
     };
   }
 
+  // If this runs out of data, it leaves the reader and the incomplete prefix
+  // at the end of the last complete number: at the start of the block if none
+  // of the block's numbers could be decoded, and otherwise inside the block
+  // with the rest of its repetitions recorded as incomplete.
   fn decompress_num_block(
     &mut self,
     reader: &mut BitReader,
     unsigneds: &mut Vec<U>,
     batch_size: usize,
+  ) -> QCompressResult<()> {
+    let start_bit_idx = reader.bit_idx();
+    let start_len = unsigneds.len();
+    let mut block = None;
+    let res = self.decompress_num_block_dirty(reader, unsigneds, batch_size, &mut block);
+    if res.is_err() {
+      let n_decoded = unsigneds.len() - start_len;
+      match block {
+        Some((prefix, full_reps)) if n_decoded > 0 => {
+          self.state.incomplete_prefix = Some(IncompletePrefix {
+            prefix,
+            remaining_reps: full_reps - n_decoded,
+          });
+        },
+        _ => {
+          reader.seek_to(start_bit_idx);
+          self.state.incomplete_prefix = None;
+        },
+      }
+    }
+    res
+  }
+
+  fn decompress_num_block_dirty(
+    &mut self,
+    reader: &mut BitReader,
+    unsigneds: &mut Vec<U>,
+    batch_size: usize,
+    block: &mut Option<(PrefixDecompressionInfo<U>, usize)>,
   ) -> QCompressResult<()> {
     let p = self.huffman_table.search_with_reader(reader)?;
 
@@ -250,6 +283,7 @@ impl<U> NumDecompressor<U> where U: UnsignedLike {
       // we stored the number of occurrences minus 1 because we knew it's at least 1
       Some(jumpstart) => {
         let full_reps = reader.read_varint(jumpstart)? + 1;
+        *block = Some((p, full_reps));
         self.limit_reps(p, full_reps, batch_size - unsigneds.len())
       },
     };
